@@ -295,7 +295,30 @@ func (g *qGen) selections(t *TypeSpec, depth int, top bool) []string {
 				more = " " + strings.Join(g.selections(t, depth, false), " ")
 				g.k.NamedFrags = saved
 			}
-			g.frags = append(g.frags, fmt.Sprintf("fragment %s on %s { %s%s }", name, t.Name, one, more))
+			body := one + more
+			if g.k.InlineFrags && depth >= 1 && g.pct(30) {
+				// a deep wrapper chain: the fragment holds an inline fragment with an object field that has
+				// an inline fragment of its own, then a sibling that reaches its fields only through two
+				// more inline fragments -- what is re-wrapped for another service below the sibling must
+				// carry the sibling's own chain and nothing of the field before it
+				var objs []*FieldSpec
+				for _, fl2 := range g.fieldsOf(t) {
+					if !scalarNames[fl2.Type.Named] {
+						objs = append(objs, fl2)
+					}
+				}
+				if len(objs) > 0 {
+					g.feats["deep-wrapper"]++
+					fl2 := objs[g.r.Intn(len(objs))]
+					tt := g.f.Type(fl2.Type.Named)
+					g.nalias++
+					inner := strings.Join(g.selections(tt, depth-1, false), " ")
+					sib := strings.Join(g.selections(t, depth-1, false), " ")
+					body = fmt.Sprintf("... on %s { dw%d: %s%s { ... on %s { %s } } ... on %s { ... on %s { %s } } } %s",
+						t.Name, g.nalias, fl2.Name, g.args(fl2), tt.Name, inner, t.Name, t.Name, sib, body)
+				}
+			}
+			g.frags = append(g.frags, fmt.Sprintf("fragment %s on %s { %s }", name, t.Name, body))
 			dir := ""
 			if g.k.FragDirs {
 				dir = g.directive()
